@@ -2,4 +2,7 @@ UNITS = {
     "GenSCP": dict(
         props=["C06", "C07", "C09"],
         dumper="dump_c06.py"),
+    "GenSCPShape": dict(
+        props=["C06"],
+        dumper="dump_c06s.py"),
 }
